@@ -4,7 +4,7 @@
 //!   pv <era> I <n> <value>^n O <m> <value>^m F <fee> M <mint|->          (the rule alone, through verif_hooks)
 //!   pvw <era> I <n> <value>^n O <m> <value>^m F <fee> M <mint|->         (the same scenario as a correctly signed transaction
 //!                                                                          built by fixtures::synth, through validate_txs)
-//!   by I <n> <amount>^n O <m> <amount>^m S <size> A <summand> B <multiplier>          (Byron check_fees, no redeem inputs)
+//!   by I <n> <amount>^n O <m> <amount>^m S <size> A <summand> B <multiplier> R <0|1>    (Byron check_fees; R 1 = every input is a redeem-address UTxO)
 //!
 //! `<era>` = shelley|allegra|mary|alonzo|babbage|conway. `<value>` = `c<coin>` (the `Coin` variant) or
 //! `m<coin>` followed by `;<policy>:<name>=<amount>,<name>=<amount>` groups (the `Multiasset` variant; policy = two hex
@@ -274,7 +274,7 @@ pub fn generate(g: &mut Gen) {
             let minfee = a as u128 + b as u128 * size as u128;
             let target = total as i128 - minfee as i128 + [0i128, 0, 1, -1, 5, -1000, 1 << 40][g.rng.below(7) as usize];
             let outs: Vec<u64> = if target > 0 && target <= u64::MAX as i128 { let t = target as u64; if g.rng.chance(1, 2) && t > 1 { let p = g.rng.range(1, t - 1); vec![p, t - p] } else { vec![t] } } else { vec![g.rng.u64_edgy().max(1)] };
-            ops.push(format!("by I {} {} O {} {} S {size} A {a} B {b}", ins.len(), ins.iter().map(|x| x.to_string()).collect::<Vec<_>>().join(" "), outs.len(), outs.iter().map(|x| x.to_string()).collect::<Vec<_>>().join(" ")));
+            ops.push(format!("by I {} {} O {} {} S {size} A {a} B {b} R {}", ins.len(), ins.iter().map(|x| x.to_string()).collect::<Vec<_>>().join(" "), outs.len(), outs.iter().map(|x| x.to_string()).collect::<Vec<_>>().join(" "), g.rng.chance(1, 4) as u8));
         }
         g.case(ops);
     }
@@ -366,7 +366,8 @@ pub fn run_case(case: &Case, out: &mut Out) {
                 let outs: Vec<u64> = op[5 + n..5 + n + m].iter().map(|t| t.parse().unwrap()).collect();
                 let rest = &op[5 + n + m..];
                 let (size, a, b): (u64, u64, u64) = (rest[1].parse().unwrap(), rest[3].parse().unwrap(), rest[5].parse().unwrap());
-                let f = fixtures::by_name("byron.successful_mainnet_tx").unwrap();
+                let redeem = rest.get(7).map(|t| t == "1").unwrap_or(false);
+                let f = fixtures::by_name(if redeem { "byron.successful_mainnet_tx_with_genesis_utxos" } else { "byron.successful_mainnet_tx" }).unwrap();
                 let mut env = fixtures::clone_env(&f.env);
                 if let P::Byron(pp) = &mut env.prot_params { pp.summand = a; pp.multiplier = b; }
                 let ftx = f.tx();
@@ -399,10 +400,16 @@ pub fn run_case(case: &Case, out: &mut Out) {
                 let minfee = a as i128 + b as i128 * size as i128;
                 match res {
                     None => out.panic(),
-                    Some(Ok(())) => { acc = true; if tin - tout < minfee { out.viol("byron-fee-below-min-accepted", format!("inputs {tin} - outputs {tout} < min fee {minfee}")); } out.ok(""); }
+                    Some(Ok(())) => {
+                        acc = true;
+                        // redeem-only transactions are exempt from the minimum fee, not from `outputs <= inputs`
+                        if redeem { if tin < tout { out.viol("byron-redeem-only-outputs-exceed-inputs", format!("inputs {tin} < outputs {tout} accepted")); } }
+                        else if tin - tout < minfee { out.viol("byron-fee-below-min-accepted", format!("inputs {tin} - outputs {tout} < min fee {minfee}")); }
+                        out.ok("");
+                    }
                     Some(Err(e)) => { rej = true; out.err(class_of(&e)) }
                 }
-                out.cov("by");
+                out.cov(if redeem { "by:redeem-only" } else { "by" });
             }
             _ => out.reply("bad-op".into()),
         }
